@@ -30,18 +30,18 @@ type pay struct {
 }
 
 type evo struct {
-	r     *evid.Run
-	rg    *rand.Rand
-	cs    int64
-	h     *wh.H
-	ch    *fakechain.Chain
-	pays  map[chainhash.Hash]*pay
-	addrs []btcutil.Address
-	first int32 // lowest height the wallet stores a hash for
-	log   []string
-	stale []chain.BlockDisconnected
+	r      *evid.Run
+	rg     *rand.Rand
+	cs     int64
+	h      *wh.H
+	ch     *fakechain.Chain
+	pays   map[chainhash.Hash]*pay
+	addrs  []btcutil.Address
+	first  int32 // lowest height the wallet stores a hash for
+	log    []string
+	stale  []chain.BlockDisconnected
 	window uint32 // recovery window the wallet is opened with (the daemon always uses 250)
-	stats map[string]int
+	stats  map[string]int
 }
 
 func (e *evo) logf(f string, a ...any) { e.log = append(e.log, fmt.Sprintf(f, a...)) }
@@ -562,7 +562,7 @@ func main() {
 	r.Rule("(wallets are opened with a recovery window of 0, 3 or 250 -- the daemon always uses 250 -- chosen per evolution) generated chain evolutions fed to a complete wallet.Wallet through an in-memory chain.Interface (both delivery styles: btcd RelevantTx+BlockConnected, bitcoind/neutrino FilteredBlockConnected+BlockConnected): extensions by 1..5 blocks, reorgs of depth 1..12 within the stored window (new branch equal or longer), wallet payments placed in the losing branch, re-included at other heights of the winning branch or left unconfirmed, unconfirmed payments, repeated BlockConnected(tip), repeated / stale / unknown-hash BlockDisconnected (also re-delivered half-way through a reorg: after all disconnects, or between two instalments of the new branch, where the synced-to block must already be a best-chain block), restarts with the chain unchanged / extended / reorganised while the wallet was stopped, a block connected while the startup rescan is still running, and a reorg of payment-free tip blocks (depth 1..3, longer new branch) delivered while the startup rescan is still running, and a reorg delivered as the very next notifications after RescanFinished. After EVERY step (deterministic two-no-op barrier) the backend's best chain is the oracle: SyncedTo = tip (height and hash), BlockHash(h) = best-chain hash for every stored height up to the tip, every transaction reported with a block names a best-chain block that contains it, every best-chain payment is reported confirmed, CalculateBalance(1) and (0) equal the backend ledger. Non-trivial = evolution with at least one reorg; distinct = distinct step sequences.")
 	r.Trusted("fakechain (harness) as the definition of the best chain")
 	r.Assume("reorgs never reach below the first block the wallet stored (outside 'within the window')", "hashes above the tip are not inspected", "assertions start after RescanFinished (the wallet ignores disconnects before that by design)", "repeated BlockConnected is only sent for the current tip")
-	dir, _ := os.MkdirTemp("", "c15")
+	dir := r.TempDir("c15")
 	defer os.RemoveAll(dir)
 	r.Parallel("evolution", r.N(40, 800), evid.Workers(), func(i int, cs int64) { runEvolution(r, dir, cs) })
 	r.Require("judgements", 800)
